@@ -19,7 +19,7 @@ pub struct G {
 
 const FIELDS: &[&str] = &["f", "g", "h", "n", "m", "s.t", "s.u", "arr", "o", "arr[1]", "lst[0]"];
 const IDENTS: &[&str] = &["A", "B", "C", "D", "sel", "android", "order", "nothing", "allow", "offline", "notable", "orbit"];
-const ALPHA: &[char] = &['a', 'b', 'A', 'B', 'c', '1', ' ', '.', 'é', 'É', '😀', 'ß', '-', '\u{a0}'];
+const ALPHA: &[char] = &['a', 'b', 'A', 'B', 'c', '1', ' ', '.', 'é', 'É', '😀', 'ß', '-', '\u{a0}', '\\'];
 const ALPHA_SMALL: &[char] = &['a', 'b', 'A', 'B'];
 
 pub fn s_node(s: &str) -> J {
@@ -567,7 +567,25 @@ impl G {
     pub fn flag_mix_source(&mut self) -> J {
         let ent = |m: &str, f: &str, v: J| json!({"m":m,"c":0,"f":cps(f),"v":v});
         let pat = |k: &str, ic: bool, a: &str| json!({"t":"pat","k":k,"ic":ic,"a":cps(a)});
-        match [0usize, 0, 1, 2, 3, 4, 5, 6, 0][self.r.below(9)] {
+        match [0usize, 0, 1, 2, 3, 4, 5, 6, 0, 7][self.r.below(10)] {
+            // 7  all(X) / of(X, n) over a SEQUENCE identifier in which one entry carries a list of numbers
+            //    or comparisons (an or-group inside the sequence's or-group): the entries are the
+            //    mappings, however the optimiser treats the identifier on its own (coalesce off)
+            7 => {
+                let lst = if self.r.chance(1, 2) { json!({"t":"list","vs":[{"t":"num","n":int_node("1")}, {"t":"num","n":int_node("2")}]}) }
+                          else { json!({"t":"list","vs":[{"t":"cmp","op":"gt","n":int_node("0")}, {"t":"cmp","op":"lt","n":int_node("10")}, {"t":"num","n":int_node("3")}]}) };
+                let ms = vec![json!({"t":"map","es":[ent("none", "n", lst)]}), json!({"t":"map","es":[ent("none", "g", pat("exact", false, "x"))]}),
+                              json!({"t":"map","es":[ent("none", "h", pat("exact", false, "x"))]})];
+                let cnt = self.r.below(4) as u64;
+                let cond = if self.r.chance(1, 3) { json!({"t":"all","n":cps("A")}) } else { json!({"t":"of","n":cps("A"),"c":cnt}) };
+                let docs: Vec<J> = (0..6).map(|_| {
+                    let mut kv = vec![("n".to_string(), i_node(*self.r.pick(&["1", "2", "3", "7", "-1", "4"])))];
+                    for f in ["g", "h"] { match self.r.below(3) { 0 => {} 1 => kv.push((f.to_string(), s_node("x"))), _ => kv.push((f.to_string(), s_node("y"))) } }
+                    obj(kv)
+                }).collect();
+                self.own_docs = Some(docs);
+                json!({"cond":cond,"ids":[[cps("A"),{"t":"seq","ms":ms}]]})
+            }
             // 6  `not (A and B)` / `not (B and A)` where A is one predicate and B a mapping with two or
             //    three keys (an and-group that the optimiser flattens into the outer one): documents
             //    leave A's field out and make a member of B false, and the other way round
@@ -1398,6 +1416,8 @@ const COND_PIECES: &[&str] = &[
     "str(", "string(", "not(", ",", "1", "0", "2", "1.5", "==", "<", "<=", ">", ">=", "=", "f", "g",
     "android", "order", "nothing", "allow", "offline", "notable", "orbit", "andA", "Aand", "nota", "ora",
     "not_admin", "or_else", "and_more", "or.x", "all_of", "not#1", "of[0]", "and.or", "int_f", "not.not", "all(not_admin)", "of(or_else, 1)",
+    // names that differ from a defined identifier only in letter case: they are NOT defined
+    "a", "b", "Android", "ORDER", "all(a)", "of(b, 1)", "Not_admin",
     "-", "-1", ".", "..", "1.2.3", "1.", ".5", "99999999999999999999", "9223372036854775807", "#x", "A[0]", "A.B",
     "_", "all", "of", "int", "all(A)", "of(B, 1)", "of(B,0)", "Z", "all(Z)", "of(Z, 1)", "not(Z)", "int(Z)", "int(f)", "flt(g)", "str(f)", "int(f) == 1", "flt(g) < 1.5",
     "str(f) == str(g)", "int(f) >= int(g)",
@@ -1475,6 +1495,10 @@ fn pat_soup(g: &mut G) -> String {
     // the rest as i64, then as f64), with an optional case prefix, sign and trailing junk
     if g.r.chance(1, 12) {
         // comparisons written exactly AT the ends of the i64 range
+        if g.r.chance(1, 3) {
+            // regexes whose compiled size is large (counted repetition of a Unicode class) or over the limit
+            return (*g.r.pick(&["?^\\w{32}$", "?^\\w{40}$", "?\\w{64}", "?[\\p{L}]{50}", "?(a|b){1000}", "?a{1000}{1000}", "?\\d{100}x", "i?^\\w{32}$", "i?\\w{48}"])).to_string();
+        }
         return (*g.r.pick(&[">9223372036854775807", "<-9223372036854775808", ">=9223372036854775807", "<=-9223372036854775808",
                             "i>9223372036854775807", "i<-9223372036854775808", "=9223372036854775808", ">9223372036854775806",
                             "<-9223372036854775807", ">-9223372036854775808", "<9223372036854775807", "=-9223372036854775808"])).to_string();
@@ -1557,9 +1581,19 @@ fn fuzz_case(g: &mut G, rule_files: &[String]) -> J {
         // pattern text / key text inside a rule
         6 => {
             let p = pat_soup(g);
-            let inner = match g.r.below(3) {
+            let inner = match g.r.below(5) {
+                // two regexes of one case class whose compiled programs are large (counted repetition
+                // of a Unicode class): each loads alone, the list is compiled into ONE set
+                4 => {
+                    let big = ["^\\w{32}$", "^\\w{40}$", "\\w{24}-\\w{24}", "[\\p{L}]{40}", "\\w{16}"];
+                    let pre = if g.r.chance(1, 3) { "i?" } else { "?" };
+                    let a = format!("{}{}", pre, g.r.pick(&big));
+                    let b = format!("{}{}", pre, g.r.pick(&big));
+                    json!({"t":"A","vs":[s_node(&a), s_node(&b)]})
+                }
                 0 => s_node(&p),
                 1 => json!({"t":"A","vs":[s_node(&p), s_node(&pat_soup(g)), s_node("x")]}),
+                3 => { let q = pat_soup(g); json!({"t":"A","vs":[s_node(&p), s_node(&q), s_node(&p), s_node(&q)]}) }
                 _ => obj(vec![("g".into(), s_node(&p))]),
             };
             let key = match g.r.below(4) {
@@ -2141,7 +2175,7 @@ pub fn gen_cases(topic: &str, seed: u64, n: usize, path: &str) -> Result<(), Str
                                 6 if matches!(topic, "perm" | "lang" | "opt") => g.wild_list_source(),
                                 7 if topic == "perm" => g.flag_mix_source(),
                                 5 if matches!(topic, "find") => g.nested_cell_source(),
-                                7 if matches!(topic, "opt") => g.nested_cell_source(),
+                                7 if matches!(topic, "opt") => if g.r.chance(1, 2) { g.nested_cell_source() } else { g.flag_mix_source() },
                                 5 | 6 if topic == "pure" => g.pure_shape_source(), _ => g.source(3) };
         let nd = 3 + g.r.below(4);
         let complete = matches!(topic, "opt" | "perm") && mode >= 4 && mode < 9;
@@ -2271,9 +2305,17 @@ pub fn gen_cases(topic: &str, seed: u64, n: usize, path: &str) -> Result<(), Str
                               json!({"t":"pat","k":"contains","ic":false,"a":cps(&base[1..])})];
                     vs.truncate(k.min(3).max(2));
                 }
+                // patterns made of DIGITS: a number (or an array of numbers) in the document is not a text,
+                // whatever its digits look like
+                let digit_pats = class == "str" && k >= 2 && g.r.chance(1, 5);
+                if digit_pats {
+                    vs = vec![json!({"t":"pat","k":"prefix","ic":false,"a":cps("8")}), json!({"t":"pat","k":"suffix","ic":false,"a":cps("3")}),
+                              json!({"t":"pat","k":"contains","ic":false,"a":cps("4")})];
+                    vs.truncate(k.min(3).max(2));
+                }
                 let k = vs.len();
-                let form = g.r.below(7);
-                let n = g.r.below(k + 2) as u64;
+                let form = if digit_pats && g.r.chance(1, 2) { 2 } else { g.r.below(7) };
+                let n = if digit_pats { 1 + g.r.below(2) as u64 } else { g.r.below(k + 2) as u64 };
                 let fld = |i: usize| if form >= 3 { format!("f{}", i) } else { "f".to_string() };
                 let ent = |m: &str, c: u64, f: &str, v: J| json!({"m":m,"c":c,"f":cps(f),"v":v});
                 let list = json!({"t":"list","vs":vs.clone()});
@@ -2328,13 +2370,25 @@ pub fn gen_cases(topic: &str, seed: u64, n: usize, path: &str) -> Result<(), Str
                         if g.r.chance(1, 8) && !(mode == "of" && n == 0 && form >= 3) {
                             continue;
                         }
-                        let v = if class == "str" && form < 3 && g.r.chance(1, 5) {
+                        let v = if digit_pats && g.r.chance(1, 2) {
+                            match g.r.below(4) {
+                                0 => json!({"t":"A","vs":[i_node("80"), i_node("443")]}),
+                                1 => i_node("843"),
+                                2 => json!({"t":"A","vs":[i_node("80"), s_node("443")]}),
+                                _ => s_node("843"),
+                            }
+                        } else if class == "str" && form < 3 && g.r.chance(1, 5) {
                             // an ARRAY of texts, the same member's match in more than one element: a
                             // member counts once however many elements it is found in
                             let h = g.r.pick(&hints).clone();
                             let a = g.near(&h);
                             let mut els = vec![s_node(&a), s_node(&a)];
                             if g.r.chance(1, 2) { let h2 = g.r.pick(&hints).clone(); els.push(s_node(&g.near(&h2))); }
+                            // ... or elements that are NOT texts (numbers, booleans) whose text would match
+                            if g.r.chance(1, 3) {
+                                els = vec![i_node("1"), i_node("11"), json!({"t":"B","b":true})];
+                                if g.r.chance(1, 2) { els.push(s_node(&a)); }
+                            }
                             json!({"t":"A","vs":els})
                         } else if class == "str" && form < 3 && g.r.chance(1, 2) {
                             // a string containing several members' needles
@@ -2452,6 +2506,20 @@ pub fn gen_cases(topic: &str, seed: u64, n: usize, path: &str) -> Result<(), Str
                 json!({"topic":"num","oracle":true,"wt":true,"src":src,"docs":docs,
                        "plan":{"tri":true,"sws":[[], [true,true,true,true]]}})
             }
+            // int() of a field that holds its number as TEXT, at the ends of the i64 range
+            "num" if mode == 5 => {
+                let c = *g.r.pick(&["-9223372036854775808", "9223372036854775807", "0", "-9223372036854775807"]);
+                let op = *g.r.pick(&["eq", "ge", "le", "gt", "lt"]);
+                let e = if g.r.chance(1, 2) { json!({"m":"int","c":0,"f":cps("f"),"v":{"t":"cmp","op":op,"n":int_node(c)}}) }
+                        else { json!({"m":"int","c":0,"f":cps("f"),"v":{"t":"num","n":int_node(c)}}) };
+                let cond = if g.r.chance(1, 4) { json!({"t":"not","e":{"t":"id","n":cps("A")}}) } else { json!({"t":"id","n":cps("A")}) };
+                let src = json!({"cond":cond,"ids":[[cps("A"),{"t":"map","es":[e]}]]});
+                let vals = vec![s_node("-9223372036854775808"), s_node("9223372036854775807"), s_node("-9223372036854775809"), s_node("9223372036854775808"),
+                                s_node("0"), s_node("-0"), s_node("-1"), i_node("-9223372036854775808"), i_node("9223372036854775807"), s_node("x"), s_node("")];
+                let docs: Vec<J> = vals.into_iter().map(|v| obj(vec![("f".into(), v)])).collect();
+                json!({"topic":"num","oracle":true,"wt":true,"src":src,"docs":docs,
+                       "plan":{"tri":true,"sws":[[], [true,true,true,true]]}})
+            }
             // a LIST of plain numbers on a key: each member is compared as a number (a text "3" is not
             // the number 3, 3.0 is), also after optimisation
             "num" if mode == 4 => {
@@ -2490,13 +2558,18 @@ pub fn gen_cases(topic: &str, seed: u64, n: usize, path: &str) -> Result<(), Str
             "num" if mode == 2 => {
                 let c = *g.r.pick(&["2.0", "2", "2.5", "-4.0", "0.0", "1024.0", "10"]);
                 let cn = if c.contains('.') { flt_node(c) } else { int_node(c) };
-                let v = if g.r.chance(1, 2) { json!({"t":"num","n":cn}) } else { json!({"t":"list","vs":[{"t":"num","n":cn}, {"t":"pat","k":"exact","ic":false,"a":cps("zz")}]}) };
+                let v = if g.r.chance(1, 3) {
+                    // an exact TEXT that denotes the same number as some document value without being its
+                    // canonical text: str() compares texts
+                    json!({"t":"pat","k":"exact","ic":false,"a":cps(*g.r.pick(&["02", "+2", "2.0", "-04", "00", "2e0", " 2"]))})
+                } else if g.r.chance(1, 2) { json!({"t":"num","n":cn}) } else { json!({"t":"list","vs":[{"t":"num","n":cn}, {"t":"pat","k":"exact","ic":false,"a":cps("zz")}]}) };
                 let cond = if g.r.chance(1, 4) { json!({"t":"not","e":{"t":"id","n":cps("A")}}) } else { json!({"t":"id","n":cps("A")}) };
                 let src = json!({"cond":cond,"ids":[[cps("A"),{"t":"map","es":[{"m":"str","c":0,"f":cps("f"),"v":v}]}]]});
                 let whole = c.trim_end_matches(".0");
                 let as_float = if whole.contains('.') { whole.to_string() } else { format!("{}.0", whole) };
                 let vals = vec![f_node(&as_float), i_node(if whole.contains('.') { "2" } else { whole }), s_node(whole), s_node(&as_float),
-                                s_node(c), f_node("2.5"), s_node("2.5"), i_node("2"), s_node("zz"), json!({"t":"B","b":true})];
+                                s_node(c), f_node("2.5"), s_node("2.5"), i_node("2"), s_node("zz"), json!({"t":"B","b":true}),
+                                i_node("-4"), i_node("0"), s_node("02"), s_node("+2")];
                 let docs: Vec<J> = vals.into_iter().map(|v| obj(vec![("f".into(), v)])).collect();
                 json!({"topic":"num","oracle":true,"wt":true,"src":src,"docs":docs,
                        "plan":{"tri":true,"sws":[[], [true,true,true,true]]}})
@@ -2733,6 +2806,21 @@ pub fn gen_cases(topic: &str, seed: u64, n: usize, path: &str) -> Result<(), Str
             // a FLAT-TABLE document: rules whose keys are dotted paths to scalar leaves (no nested
             // mappings, no indices), documents that are nested objects with scalar leaves - the flat
             // table (every leaf under its full path) is one more representation of the same content
+            // paths whose steps meet the "other" container: a numeric NAME on an array (`t.0`), an index on
+            // an object (`t[0]`), a name on an array - every representation must call them missing alike
+            "repr" if mode == 5 => {
+                let key = *g.r.pick(&["t.0", "t[0]", "t.x", "t.0.x", "t[1].x"]);
+                let v = if g.r.chance(1, 3) { json!({"t":"pat","k":"any","ic":false,"a":[]}) } else { json!({"t":"pat","k":"exact","ic":false,"a":cps("x")}) };
+                let cond = if g.r.chance(1, 3) { json!({"t":"not","e":{"t":"id","n":cps("A")}}) } else { json!({"t":"id","n":cps("A")}) };
+                let src = json!({"cond":cond,"ids":[[cps("A"),{"t":"map","es":[{"m":"none","c":0,"f":cps(key),"v":v}]}]]});
+                let tvals = vec![json!({"t":"A","vs":[s_node("x"), s_node("y")]}), obj(vec![("0".into(), s_node("x"))]), obj(vec![("x".into(), s_node("x"))]),
+                                 s_node("x"), json!({"t":"A","vs":[obj(vec![("x".into(), s_node("x"))]), obj(vec![("x".into(), s_node("x"))])]}),
+                                 obj(vec![("0".into(), obj(vec![("x".into(), s_node("x"))]))]), json!({"t":"A","vs":[]})];
+                let docs: Vec<J> = tvals.into_iter().map(|t| obj(vec![("t".into(), t)])).collect();
+                json!({"topic":"repr","oracle":true,"wt":true,"src":src,"docs":docs,
+                       "plan":{"tri":false,"scope":"sw","sws":[[], [true,true,true,true]],
+                               "reprs":["json","jsontext","yamltext","hm","own","doc","ownfind"]}})
+            }
             "repr" if mode == 3 || mode == 4 => {
                 let paths = ["p.q", "r", "s.t.u", "p.v"];
                 let n = 1 + g.r.below(3);
